@@ -105,6 +105,18 @@ func ServiceFunction(g Generator, s *compile.ServiceSpec, f *compile.FunctionSpe
 		return nil
 	}
 
+	// IsException, WrapResponse and UnwrapResponse dispatch on the Go type of
+	// the error, so an exception type can be thrown by only one entry.
+	thrown := make(map[compile.TypeSpec]string, len(f.ResultSpec.Exceptions))
+	for _, e := range f.ResultSpec.Exceptions {
+		if other, ok := thrown[e.Type]; ok {
+			return wrapGenerateError(fmt.Sprintf("%s.%s", s.Name, f.Name), fmt.Errorf(
+				"exception type %q is declared more than once in throws (%q and %q)",
+				e.Type.ThriftName(), other, e.Name))
+		}
+		thrown[e.Type] = e.Name
+	}
+
 	resultFields := make(compile.FieldGroup, 0, len(f.ResultSpec.Exceptions)+1)
 	if f.ResultSpec.ReturnType != nil {
 		resultFields = append(resultFields, &compile.FieldSpec{
